@@ -292,6 +292,23 @@ Definition node_for (defs : list fdef) (top : bool) (x : nat) : list fnode :=
 Definition request_graph (defs : list fdef) (rq : list nat) : fgraph :=
   flat_map (node_for defs true) rq ++ flat_map (node_for defs false) (reach_of defs rq).
 
+(* decidable forms of the hypotheses on requests (Spec/PlannerASpec.v defs_ok, defs_group_dag) *)
+Definition defs_okb (defs : list fdef) (rq : list nat) : bool :=
+  let names := map dname defs in
+  let order := topo_list (S (List.length defs)) (dins_of defs) names [] in
+  nodupb names && forallb (fun d => subset (dins d) names && nodupb (dins d)) defs
+  && forallb (fun d => forallb (fun x => before order x (dname d)) (dins d)) defs
+  && nodupb rq && subset rq names
+  && match defs with [] => true | d0 :: _ => forallb (fun d => Nat.eqb (dcfw d) (dcfw d0)) defs end.
+Definition dgrp_of (defs : list fdef) (x : nat) : nat := match def_of defs x with Some d => dgrp d | None => 0 end.
+Definition dgrp_deps (defs : list fdef) (k : nat) : list nat :=
+  dedupe (flat_map (fun e => if Nat.eqb (dgrp e) k
+                             then filter (fun k' => negb (Nat.eqb k' k)) (map (dgrp_of defs) (dins e)) else []) defs).
+Definition defs_group_dagb (defs : list fdef) : bool :=
+  let gs := dedupe (map dgrp defs) in
+  let order := topo_list (S (List.length gs)) (dgrp_deps defs) gs [] in
+  forallb (fun e => forallb (fun x => Nat.eqb (dgrp_of defs x) (dgrp e) || before order (dgrp_of defs x) (dgrp e)) (dins e)) defs.
+
 (* ---------- checkers for the correspondence harness (harness/planner_a.py) ---------- *)
 Definition amap_eqb (a b : amap) : bool :=
   forallb (fun kv => set_eqb (snd kv) (aget0 (fst kv) b)) a && forallb (fun kv => set_eqb (snd kv) (aget0 (fst kv) a)) b.
@@ -322,7 +339,8 @@ Fixpoint plan_matches (cl : amap) (p : plan) (o : list ostep) : bool :=
    DFS queue, parent_to_children_mapping (non-empty entries) and the plan in plan order *)
 Record pcase := { pc_defs : list fdef; pc_req : list nat; pc_g : fgraph; pc_queue : list nat; pc_p2c : amap;
                   pc_plan : list ostep }.
-Definition chk_request (c : pcase) : bool := graph_equivb (request_graph (pc_defs c) (pc_req c)) (pc_g c).
+Definition chk_request (c : pcase) : bool :=
+  defs_okb (pc_defs c) (pc_req c) && graph_equivb (request_graph (pc_defs c) (pc_req c)) (pc_g c).
 Definition chk_graph (c : pcase) : bool := graph_okb (pc_g c) && strictb (pc_g c).
 Definition chk_queue (c : pcase) : bool := list_eqb (queue_of (pc_g c)) (pc_queue c).
 Definition chk_closure (c : pcase) : bool :=
@@ -341,5 +359,6 @@ Definition chk_request_plan (c : pcase) : bool :=
 (* classification *)
 Definition model_wf (c : pcase) : bool := wf_plan_auto (plan_of ord_id (pc_g c)).
 Definition model_group_dag (c : pcase) : bool := group_dagb (pc_g c).
+Definition model_defs_group_dag (c : pcase) : bool := defs_group_dagb (pc_defs c).
 Definition model_req_covers (c : pcase) : bool :=
   req_covers (plan_of ord_id (pc_g c)) (map (fun n => (fid n, fins n)) (pc_g c)).
